@@ -112,6 +112,11 @@ def rule_len_pair(ctx, files=None, floor=30):
                 for x in walk(e, True):
                     if x[0] == "asg" and x[1] in ("-=", "+=") and kind(strip(x[3])) == "var" and kind(strip(x[2])) == "var":
                         books.append((i, strip(x[2])[1], strip(x[3])[1], x[1], x[4] if len(x) > 4 and isinstance(x[4], int) else 0))
+                    elif x[0] == "asg" and x[1] == "=" and kind(strip(x[2])) == "var" and kind(strip(x[3])) == "bin" and strip(x[3])[1] in ("+", "-"):
+                        # the spelled-out form `p = p + n`
+                        b_ = strip(x[3])
+                        if kind(strip(b_[2])) == "var" and strip(b_[2])[1] == strip(x[2])[1] and kind(strip(b_[3])) == "var":
+                            books.append((i, strip(x[2])[1], strip(b_[3])[1], b_[1] + "=", x[4] if len(x) > 4 and isinstance(x[4], int) else 0))
             for i, R, L, op, bl in books:
                 for j, (e, nd) in enumerate(seq):
                     for c in calls_in(e, True):
